@@ -4,7 +4,7 @@
 (* as KNOWN-FINDING only if it occurs at the recorded site AND the observed    *)
 (* value equals what the operator below predicts; anything else at the same    *)
 (* site is a new VIOLATION.                                                    *)
-EXTENDS Events
+EXTENDS Metrics
 
 \* F-interval-infinite (C07): util.get_intervals builds below*/above* events as intervals whose infinite end is OPEN,
 \* so Interval.within(-inf) is False for `below` (and within(+inf) False for `above`), although -inf < t and
@@ -13,4 +13,17 @@ In_AsImplemented(iv, x) ==
   /\ ~IsNaN(x)
   /\ (Gt(x, iv.lo) \/ (iv.lc /\ iv.lo # MInf /\ x = iv.lo))
   /\ (Lt(x, iv.hi) \/ (iv.uc /\ iv.hi # PInf /\ x = iv.hi))
+
+\* F-alphaindex (C05): the code returns 1 - alpha, so a perfect forecast scores 1 although the declared perfect score is 0
+Alphaindex_AsImplemented(p) ==
+  LET e == Det("alphaindex", p, "mean", Zero) IN IF IsUndef(e) THEN e ELSE Q(Sub(One, e.v))
+
+\* F-leps (C05): the observation side uses argsort positions (index of the k-th smallest element) instead of ranks:
+\*   qobs[k] = (position of the k-th smallest observation in the input order) / n ,  qfcst[k] = Fobs(f[k])
+StableRank(o, k) == Cardinality({j \in DOMAIN o : Lt(o[j], o[k])}) + Cardinality({j \in 1..(k - 1) : o[j] = o[k]}) + 1
+ArgSort(o) == [i \in DOMAIN o |-> CHOOSE k \in DOMAIN o : StableRank(o, k) = i]
+Leps_AsImplemented(p) ==
+  IF N(p) = 0 THEN Undef
+  ELSE LET o == O(p)  f == F(p)  n == N(p)
+       IN  Q(MeanSeq([k \in DOMAIN p |-> AbsR(Sub(Fobs(p, f[k]), Frac(ArgSort(o)[k] - 1, n)))]))
 =============================================================================
